@@ -35,7 +35,7 @@ def group_tasks(tier):
 def closed_for_small(f, G, rng, prefix="a"):
     """the closed-form path adjacent to the series region: picked by a sample just above the largest switch the code uses
     (rotation norms 0.3, 1e-3, 1.5: whichever lies on an all-closed path first)"""
-    for rn in (0.3, 1e-3, 1.5):
+    for rn in (0.3, 1e-3, 1.5, 2.0):
         env = G.sample_tangent(rng, prefix, rotnorm=rn)
         pc = pick_path(f.paths("closed"), env)
         if pc is not None:
